@@ -379,6 +379,13 @@ func mustHaveRespB(query, resp *dnsmsg.Msg, errRcode dnsmsg.RCode, tcp bool, siz
 	// Try to pack an empty resp.
 	resp = makeEmptyRespM(query, errRcode)
 	defer dnsmsg.ReleaseMsg(resp)
+	// An answer to a query with edns0 has edns0 as well.
+	for _, rr := range query.Additionals {
+		if rr.Hdr().Type == dnsmsg.TypeOPT {
+			resp.Additionals = append(resp.Additionals, newEDNS0(udpSize))
+			break
+		}
+	}
 	if tcp {
 		b, err = packRespTCP(resp, true)
 	} else {
